@@ -168,3 +168,98 @@ Example ex_sections : sections 8 = [(0, 8); (6, 8)] /\ sections 7 = [(0, 7); (6,
 Proof. vm_compute. repeat split. Qed.
 Example ex_minclear : option_map (fun r => reqb r (mkr 1 1)) (minclear2 (GPoly [(0, 0); (10, 0); (10, 10); (5, 1); (0, 10); (0, 0)] [])) = Some true.
 Proof. vm_compute. reflexivity. Qed.
+
+(* ==================================================================================================================
+   Tie G: the leaf distance functions REGENERATED from /repo's src/algorithm/Distance.cpp (and the inline helpers of
+   Coordinate.h / Envelope.h they call) on every run: Gen/C08_ptSeg, C08_ptLinePerp, C08_segSeg, C08_coordEq, C08_equals2D,
+   C08_coordDist, C08_envSeg.  `double` is read as a REAL number (C08/GenPreludeR): binary64 rounding is not part of these
+   statements; it is bounded by the sampled correspondence of props/C08.py (1e-12 relative, exact rational comparison).
+   Points are pairs of reals; on_seg x a b: x = a + t (b - a) for some real 0 <= t <= 1; distR = Euclidean distance. *)
+From Coq Require Import Reals Lra.
+From GeosV.C08 Require GenPreludeR RealDistDefs RealPtSeg RealSegSeg GenDist.
+From GeosV.Gen Require C08_ptSeg C08_ptLinePerp C08_segSeg C08_envSeg.
+Local Close Scope Z_scope.
+Local Open Scope R_scope.
+Notation rpt := GenPreludeR.rpt (only parsing).
+Notation on_seg := RealDistDefs.on_seg (only parsing).
+Notation distR := RealDistDefs.distR (only parsing).
+Notation d2R := RealDistDefs.d2R (only parsing).
+Notation g_pointToSegment := C08_ptSeg.g_pointToSegment (only parsing).
+Notation g_segmentToSegment := C08_segSeg.g_segmentToSegment (only parsing).
+
+(* Distance::pointToSegment(p, A, B) returns THE distance from p to the closed segment AB, for all inputs (A = B included):
+   it is non-negative, it is the distance to some point of the segment, and no point of the segment is closer *)
+Theorem C08_gen_pointToSegment_is_distance : forall p a b : rpt,
+  let v := g_pointToSegment p a b in
+  0 <= v /\ (exists x, on_seg x a b /\ v = distR p x) /\ (forall x, on_seg x a b -> v <= distR p x).
+Proof. exact GenDist.g_pointToSegment_is_dist. Qed.
+Print Assumptions C08_gen_pointToSegment_is_distance.
+
+(* ... in squared form: (returned value)^2 is the exact squared distance to the nearest point of the segment *)
+Theorem C08_gen_pointToSegment_squared : forall p a b : rpt,
+  exists x, on_seg x a b /\ g_pointToSegment p a b * g_pointToSegment p a b = d2R p x /\ forall y, on_seg y a b -> d2R p x <= d2R p y.
+Proof. exact GenDist.g_pointToSegment_sq. Qed.
+Print Assumptions C08_gen_pointToSegment_squared.
+
+(* Distance::pointToLinePerpendicular(p, A, B), A <> B: the distance from p to the whole line AB *)
+Theorem C08_gen_pointToLinePerpendicular_is_distance : forall p a b : rpt, 0 < RealDistDefs.len2 a b ->
+  let v := C08_ptLinePerp.g_pointToLinePerpendicular p a b in
+  0 <= v /\ (exists t, v = distR p (RealDistDefs.lerp a b t)) /\ (forall t, v <= distR p (RealDistDefs.lerp a b t)).
+Proof. exact GenDist.g_pointToLinePerpendicular_is_dist. Qed.
+Print Assumptions C08_gen_pointToLinePerpendicular_is_distance.
+
+(* Distance::segmentToSegment(A, B, C, D) returns THE distance between the closed segments AB and CD, for all inputs
+   (zero-length segments, parallel, collinear, touching, crossing, disjoint): attained by a point of each, and a lower bound
+   for every pair of points *)
+Theorem C08_gen_segmentToSegment_is_distance : forall a b c d : rpt,
+  let v := g_segmentToSegment a b c d in
+  0 <= v /\ (exists x y, on_seg x a b /\ on_seg y c d /\ v = distR x y) /\
+  (forall x y, on_seg x a b -> on_seg y c d -> v <= distR x y).
+Proof. exact GenDist.g_segmentToSegment_is_dist. Qed.
+Print Assumptions C08_gen_segmentToSegment_is_distance.
+
+(* the code's own branch structure: for proper segments the result is 0 when the envelopes meet and the crossing test
+   (denom <> 0, 0 <= r <= 1, 0 <= s <= 1) succeeds, otherwise the least of the four end point / segment distances *)
+Theorem C08_gen_segmentToSegment_branches : forall a b c d : rpt, a <> b -> c <> d ->
+  (C08_envSeg.c_intersects_4 a b c d = true /\ RealDistDefs.crossing a b c d -> g_segmentToSegment a b c d = 0) /\
+  (~ (C08_envSeg.c_intersects_4 a b c d = true /\ RealDistDefs.crossing a b c d) ->
+     g_segmentToSegment a b c d = Rmin (g_pointToSegment a c d) (Rmin (g_pointToSegment b c d) (Rmin (g_pointToSegment c a b) (g_pointToSegment d a b)))).
+Proof. exact GenDist.g_segmentToSegment_branches. Qed.
+Print Assumptions C08_gen_segmentToSegment_branches.
+
+(* when the crossing test succeeds the segments do share a point ... *)
+Theorem C08_gen_crossing_meets : forall a b c d : rpt, RealDistDefs.crossing a b c d -> exists x, on_seg x a b /\ on_seg x c d.
+Proof. exact RealSegSeg.crossing_meets. Qed.
+Print Assumptions C08_gen_crossing_meets.
+
+(* ... and when it fails the least of the four end point / segment distances is the distance of the segments *)
+Theorem C08_gen_min_of_four_is_distance : forall (a b c d : rpt) (va vb vc vd : R), 0 < RealDistDefs.len2 a b -> ~ RealDistDefs.crossing a b c d ->
+  RealDistDefs.is_pt_seg_dist va a c d -> RealDistDefs.is_pt_seg_dist vb b c d ->
+  RealDistDefs.is_pt_seg_dist vc c a b -> RealDistDefs.is_pt_seg_dist vd d a b ->
+  RealDistDefs.is_seg_seg_dist (Rmin va (Rmin vb (Rmin vc vd))) a b c d.
+Proof. exact RealSegSeg.min4_is_dist. Qed.
+Print Assumptions C08_gen_min_of_four_is_distance.
+
+(* zero exactly when the segments have a point in common; symmetric in the two segments *)
+Theorem C08_gen_segmentToSegment_zero_iff_meet : forall a b c d : rpt,
+  g_segmentToSegment a b c d = 0 <-> exists x, on_seg x a b /\ on_seg x c d.
+Proof. exact GenDist.g_segmentToSegment_zero_iff. Qed.
+Print Assumptions C08_gen_segmentToSegment_zero_iff_meet.
+Theorem C08_gen_segmentToSegment_sym : forall a b c d : rpt, g_segmentToSegment a b c d = g_segmentToSegment c d a b.
+Proof. exact GenDist.g_segmentToSegment_sym. Qed.
+Print Assumptions C08_gen_segmentToSegment_sym.
+
+(* non-vacuity of the hypotheses above, and concrete values *)
+Example ex_gen_proper_segments : GenPreludeR.mk_rpt 0 0 <> GenPreludeR.mk_rpt 2 0 /\ GenPreludeR.mk_rpt 1 (-1) <> GenPreludeR.mk_rpt 1 1
+                                 /\ 0 < RealDistDefs.len2 (GenPreludeR.mk_rpt 0 0) (GenPreludeR.mk_rpt 2 0).
+Proof. exact GenDist.ex_proper_segments. Qed.
+(* (0,0)-(2,0) and (1,-1)-(1,1) cross (r = s = 1/2); (0,0)-(2,0) and (0,1)-(2,1) are parallel: the test fails *)
+Example ex_gen_crossing : RealDistDefs.crossing (GenPreludeR.mk_rpt 0 0) (GenPreludeR.mk_rpt 2 0) (GenPreludeR.mk_rpt 1 (-1)) (GenPreludeR.mk_rpt 1 1)
+                          /\ ~ RealDistDefs.crossing (GenPreludeR.mk_rpt 0 0) (GenPreludeR.mk_rpt 2 0) (GenPreludeR.mk_rpt 0 1) (GenPreludeR.mk_rpt 2 1).
+Proof. exact GenDist.ex_crossing. Qed.
+(* the distance from (1,3) to the segment (0,0)-(2,0) is 3 (foot of the perpendicular) *)
+Example ex_gen_pt_seg_value : g_pointToSegment (GenPreludeR.mk_rpt 1 3) (GenPreludeR.mk_rpt 0 0) (GenPreludeR.mk_rpt 2 0) = 3.
+Proof. exact GenDist.ex_pt_seg_value. Qed.
+Example ex_gen_seg_seg_values : g_segmentToSegment (GenPreludeR.mk_rpt 0 0) (GenPreludeR.mk_rpt 2 0) (GenPreludeR.mk_rpt 1 (-1)) (GenPreludeR.mk_rpt 1 1) = 0
+                          /\ g_segmentToSegment (GenPreludeR.mk_rpt 0 0) (GenPreludeR.mk_rpt 2 0) (GenPreludeR.mk_rpt 0 1) (GenPreludeR.mk_rpt 2 1) <> 0.
+Proof. exact GenDist.ex_seg_seg_values. Qed.
